@@ -348,7 +348,7 @@ impl<W: WorldSpec> Engine<W> {
         }
     }
 
-    pub fn op_preset(&mut self, a: u8, slot_back: u32, ver_back: u32) {
+    pub fn op_preset(&mut self, a: u8, slot_back: u32, ver_back: u32, bits: Option<u8>) {
         if !self.cur_alive() || !self.cfg.hooks {
             return;
         }
@@ -358,13 +358,19 @@ impl<W: WorldSpec> Engine<W> {
         if am.len != 0 || am.preset {
             return;
         }
+        // just below 2^bits (default 32: the overflow boundary; smaller widths catch counters that
+        // are silently truncated)
+        let top: u32 = match bits {
+            Some(b) if (4..32).contains(&b) => (1u32 << b) - 1,
+            _ => u32::MAX,
+        };
+        let sg = top - (slot_back % 8);
+        let av = top - (ver_back % 8);
         // never lower a generation below one that was already issued
         let id = W::archs()[ai].info().id;
-        if self.ms[wid].issued.iter().any(|b| (*b >> 32) as u8 == id && (*b as u32) >= (1 << 30)) {
+        if self.ms[wid].issued.iter().any(|b| (*b >> 32) as u8 == id && (*b as u32) >= sg) || self.ms[wid].archs[ai].ver >= av as u64 {
             return;
         }
-        let sg = u32::MAX - (slot_back % 8);
-        let av = u32::MAX - (ver_back % 8);
         let w = self.ws[wid].as_mut().unwrap();
         W::archs()[ai].preset(w, sg, av);
         let am = &mut self.ms[wid].archs[ai];
@@ -372,6 +378,7 @@ impl<W: WorldSpec> Engine<W> {
         am.ver = av as u64;
         am.ver_obs = av as u64;
         am.rem_at_obs = am.removals;
+        am.slot_gens.clear();
         self.stats.inc("preset_generations");
         rt::h(&[0x94E5, ai as u64, sg as u64, av as u64]);
     }
@@ -569,14 +576,14 @@ impl<W: WorldSpec> Engine<W> {
             Op::Write { h, typed, path, col, p } => self.op_write(*h, *typed, *path, *col, *p),
             Op::Mint { h, typed, lvl } => self.op_mint(*h, *typed, *lvl),
             Op::Scan { a, path, w } => self.op_scan(*a, *path, *w),
-            Op::Query { site, mac, key, plan } => self.op_query(*site, *mac, *key, plan),
+            Op::Query { site, mac, key, plan, dp } => self.op_query(*site, *mac, *key, plan, *dp),
             Op::CloneWorld { panic_at, probe } => self.op_clone_world(*panic_at, *probe),
             Op::Switch { n } => self.op_switch(*n),
             Op::DropWorld { panic_at } => self.op_drop_world(*panic_at),
             Op::ClearEvents { a } => self.op_clear_events(*a),
             Op::Fill { a } => self.op_fill(*a),
             Op::Forge { f } => self.op_forge(f),
-            Op::Preset { a, slot_back, ver_back } => self.op_preset(*a, *slot_back, *ver_back),
+            Op::Preset { a, slot_back, ver_back, bits } => self.op_preset(*a, *slot_back, *ver_back, *bits),
             Op::Cycle { a, n } => self.op_cycle(*a, *n),
             Op::Nest { accs, at } => self.op_nest(accs, *at),
             Op::ReplaceArch { a, .. } => self.op_replace_arch(*a),
